@@ -94,6 +94,22 @@ MORE_UNITS += [
              "then the worker arrives at the start-up barrier (so run() returns only after every worker left `initialized`)"),
 ]
 
+MORE_UNITS += [
+    Unit("more.thread_func_exit", MT + "more.c", defines=["U_TF_EXIT"], enforce="thread_func_exit",
+         lifts=dict(STATE_HELPERS, body=Lift(IMPL, r"(?<![\w:])scheduling_loop\(",
+                                             fragment_end=r"\);(?=\s*\}\s*catch \(pika::exception const& e\))",
+                                             rules=[Call0(r"(?<![\w:>.])scheduling_loop", "scheduling_loop_stub(self, {0})"),
+                                                    Sub(r"\bthread_schedule_state::(\w+)", r"thread_schedule_state_\1", None),
+                                                    Sub(r"\bexecution::thread_priority::default_\b", "thread_priority_default", None),
+                                                    Call0(r"(?:this->)?sched_->Scheduler::get_thread_count", "sched_get_thread_count3(self->sched_, {0}, {1}, {2})"),
+                                                    Call0(r"(?:this->)?sched_->Scheduler::get_queue_length", "sched_get_queue_length(self->sched_, {0})")] + MORE_POOL,
+                                             post=[Sub(r"\(\*get_state\(([^()]*)\)\)\s*" + CMP, r"atomic_load(get_state(\1)) \2", None)])),   # implicit conversion = load
+         funcs=[IMPL + ": scheduled_thread_pool::thread_func (fragment: `scheduling_loop(...); PIKA_ASSERT(... || get_state(thread_num) > stopping);`)"],
+         min_obligations=30,
+         doc="S (worker, after the loop): no write after the loop's final step; the authors' assertion that a worker ends only "
+             "with empty queues or with its word above `stopping` holds (it does not under the transient lowering of O2)"),
+]
+
 # ---- stop_locked / stop / report_error -----------------------------------------------------------------------------------
 LOOP_SET_ALL2 = """
 __CPROVER_assigns(vx_it1, g_v_state, g_o_state, lin_count, lin_old, lin_new, lin_first_old, lin_first_new, g_interfered)
@@ -310,7 +326,9 @@ MORE_META = {
         "EXPECTED FAILURE on the pinned tree: more.remove_pu_internal (observation O2: `exchange(stopping)` on a word that is "
         "already terminating / stopped LOWERS it for a moment and then stores the old value back -- terminating->stopping, "
         "stopped->stopping are not edges, and the remover stores `stopped`); -DKNOWN_REMOVE_BOUNCE (the word is at most `stopping` "
-        "until the exchange) proves the unit completely; so does the candidate repair (CAS-raise loop instead of exchange + restore).",
+        "until the exchange) proves the unit completely; so does the candidate repair (CAS-raise loop instead of exchange + restore). "
+        "Concrete consequence of O2 (debug builds): with the transient terminating->stopping in the rely (-DEXPERIMENT_O2_BOUNCE) the "
+        "authors' own PIKA_ASSERT at the end of thread_func (`queues empty || state > stopping`) fails in more.thread_func_exit.",
     "census": [
         "scheduler_base.cpp:65   scheduler_base ctor  states_[i].store(initialized)        construction, before the object is shared: not a unit (A-LIFE)",
         "scheduler_base.cpp:113  suspend              states_[n].store(sleeping)           state.sched_suspend   (W: pre_sleep->sleeping)",
@@ -324,7 +342,8 @@ MORE_META = {
         "scheduled_thread_pool_impl.hpp:1345  remove_processing_unit_internal   state.store(oldstate)                  more.remove_pu_internal -- O2; only caller stop_locked = more.stop_locked",
         "scheduled_thread_pool_impl.hpp:1394  suspend_processing_unit_internal  state.compare_exchange_strong          state.suspend_pu_internal (Q)",
         "scheduling_loop.hpp:590              scheduling_loop                   this_state.store(stopped)              more.loop_tail (W: stopping|terminating->stopped), invariant carried by more.loop_top / more.loop_sleep",
-        "read-only holders of a reference / get_state(i): impl:171, 474, 1453 (state.resume_pu_direct), scheduled_thread_pool.hpp:152, "
+        "scheduled_thread_pool_impl.hpp:474   thread_func                       get_state(thread_num) > stopping (read, PIKA_ASSERT)   more.thread_func_exit (W: no write after the loop)",
+        "read-only holders of a reference / get_state(i): impl:171, 1453 (state.resume_pu_direct), scheduled_thread_pool.hpp:152, "
         "thread_pool_base.cpp:49, 72, scheduler_base.cpp select_active_pu / has_reached_state / is_state / get_minmax_state; the schedulers "
         "(libs/pika/schedulers) never touch the word",
     ],
